@@ -154,6 +154,12 @@ def match_known(ob: Ob, prop: str, known: list[dict]) -> dict | None:
             continue
         if ob.key in k.get("keys", []):
             return k
+        # the finding described as a pattern over keys (the defective statement rewritten in
+        # place — other spelling, other local structure — is still the same finding)
+        import fnmatch
+
+        if any(fnmatch.fnmatchcase(ob.key, pat) for pat in k.get("patterns", [])):
+            return k
         # the same construct after the enclosing private function was split or renamed inside
         # its module: same rule, same selector and digest, other function of the same module
         rid, _, rest = ob.key.partition(":")
